@@ -1290,8 +1290,8 @@ func TestVerifC15(t *testing.T) {
 	budget := vx.Budget(80*time.Second, 16*time.Minute)
 
 	// The enumeration is handed out in consecutive batches whose size adapts to the measured
-	// speed: a batch should not take longer than about a third of the remaining budget (the
-	// machine may be heavily loaded), and no batch is started that is unlikely to finish in time.
+	// speed (the machine may be heavily loaded): a batch must be likely to finish inside the
+	// remaining budget, and no batch is started that is unlikely to do so.
 	type batch struct {
 		id  int
 		fns []*c15Fn
@@ -1330,7 +1330,7 @@ func TestVerifC15(t *testing.T) {
 		remaining := budget - time.Since(t0)
 		n := 150
 		if secPerFn > 0 {
-			n = int(remaining.Seconds()/3/secPerFn) - fixedFns
+			n = int(0.8*remaining.Seconds()/secPerFn) - fixedFns
 			if n < 40 {
 				// not even a small batch is likely to finish inside the budget
 				if float64(40+fixedFns)*secPerFn > remaining.Seconds() {
